@@ -1,6 +1,7 @@
 package main
 
 import (
+	"os"
 	"fmt"
 	"go/token"
 	"go/types"
@@ -379,14 +380,24 @@ func runC14(c *Ctx) {
 		if !ok {
 			continue
 		}
-		sh, ok := stripConv(ms.Len).(*ssa.BinOp)
-		if !ok || sh.Op != token.SHR {
+		// count = payload / 2^k, however the division is written
+		zl := &Polyizer{}
+		lenP := zl.Of(ms.Len)
+		if os.Getenv("FFC_DBG") != "" {
+			fmt.Fprintf(os.Stderr, "DBG len %s\n", lenP.String())
+		}
+		var fi fdivInfo
+		nf := 0
+		for mono, cf := range lenP {
+			if info, isF := fdivAtoms[mono]; isF && cf == 1 {
+				fi = info
+				nf++
+			}
+		}
+		if nf != 1 {
 			continue
 		}
-		k, ok := constInt64(sh.Y)
-		if !ok {
-			continue
-		}
+		k := int64(fi.k)
 		facts := ge.FactsAt(n)
 		arm := ""
 		for _, f := range facts {
@@ -415,13 +426,15 @@ func runC14(c *Ctx) {
 				continue
 			}
 			width = sizesAMD64.Sizeof(ld.Type())
-			if phi, ok := ptrFromUintptr(ld.X).(*ssa.Phi); ok {
-				for _, e := range phi.Edges {
-					if b, ok := e.(*ssa.BinOp); ok && b.Op == token.ADD && b.X == ssa.Value(phi) {
-						if s, ok := constInt64(b.Y); ok {
+			// the pointer's advance per iteration (induction form of the loop)
+			if pv := ptrFromUintptr(ld.X); pv != nil && isIntegral(pv.Type()) {
+				if lf, ok := ge.loopFormAt(zl, st.Block()); ok {
+					if _, per, ok := lf.affineInT(pv); ok {
+						if s, isC := per.isConst(); isC {
 							step = s
 						}
 					}
+					lf.Done()
 				}
 			}
 		}
